@@ -2,7 +2,8 @@
    Model of lib/shape: GetDimensionsToFit and GetInnerBox (GetInnerBoxForContent for the cloud) of every
    shape whose formula is rational, over exact rationals Q with ceil/floor/round.  The Go code computes in
    float64; the correspondence (Check.v) compares within a stated tolerance.
-   Oval and circle (atan2/sin/cos/sqrt) are NOT modelled; they are monitored by the harness only.
+   The circle is modelled with math.Sqrt2 as the float64 constant it is.  The oval (atan2/sin/cos/sqrt/pow)
+   is NOT modelled; it is monitored by the harness only.
 
    All boxes are at the origin (TopLeft = (0,0)); GetInnerBox only translates by Box.TopLeft.            *)
 From Coq Require Import ZArith QArith Qround Bool.
@@ -24,7 +25,7 @@ Definition limit_ar (w h ar : Q) : Q * Q :=
    Square (rectangle), Table, Class, Code, Text, Image, and unknown type strings. *)
 Inductive shape :=
   Plain | RealSquare | Diamond | Hexagon | Parallelogram | Step | Callout | Document | Cylinder | Queue
-| Package | Page | StoredData | Person | C4Person | Cloud.
+| Package | Page | StoredData | Person | C4Person | Cloud | Circle.
 
 (* constants, lib/shape/shape_*.go *)
 Definition parallelWedgeWidth : Q := 26.
@@ -43,6 +44,10 @@ Definition personAR : Q := 3 # 2.
 Definition c4AR : Q := 3 # 2.
 Definition headRadiusFactor : Q := 22 # 100.
 Definition bodyTopFactor : Q := 8 # 10.
+
+(* math.Sqrt2 as the float64 constant the code multiplies with (exactly this dyadic rational; its square is
+   2.0000000000000004 > 2) *)
+Definition sqrt2f : Q := 6369051672525773 # 4503599627370496.
 
 Definition cloudWideX : Q := 85 # 1000.    Definition cloudWideY : Q := 409 # 1000.
 Definition cloudWideW : Q := 819 # 1000.   Definition cloudWideH : Q := 548 # 1000.
@@ -107,6 +112,7 @@ Definition fit (s : shape) (w h px py : Q) : Q * Q :=
   | Cloud =>
       let k := cloud_branch cw ch in
       (ceilQ (cw / cloud_iw k), ceilQ (ch / cloud_ih k))
+  | Circle => let d := ceilQ (sqrt2f * qmax cw ch) in (d, d)
   end.
 
 (* inner box (x, y, width, height) of the shape whose box is (0,0,W,H).
@@ -149,6 +155,12 @@ Definition inner (s : shape) (W H aw ah : Q) : box :=
   | Cloud =>
       let k := cloud_branch aw ah in
       (ceilQ (W * cloud_ix k), ceilQ (H * cloud_iy k), W * cloud_iw k, H * cloud_ih k)
+  | Circle =>
+      (* GetInsidePlacement(width, height, 0, 0): both coordinates from r = Box.Width / 2 *)
+      let r := W / 2 in
+      let half := r * sqrt2f / 2 in
+      let t := ceilQ (r - half + 0 / 2) in
+      (t, t, W - 2 * (t - 0), H - 2 * (t - 0))
   end.
 
 Definition bx (b : box) : Q := fst (fst (fst b)).
@@ -170,7 +182,7 @@ Definition Inside (W H : Q) (b : box) : Prop :=
 
 (* shapes for which the fit guarantee is proved without any side condition *)
 Definition exact_shape (s : shape) : bool :=
-  match s with Person | C4Person | Cloud => false | _ => true end.
+  match s with Person | C4Person | Cloud | Circle => false | _ => true end.
 
 (* TraceToShapeBorder for rectangular shapes (IsRectangular() or empty type): the identity on the
    point handed in (which the layout engines put on the rectangle's border). *)
@@ -204,5 +216,33 @@ Definition guard (s : shape) (w h px py : Q) : bool :=
   | _ => true
   end.
 
+(* what the two math.Ceil calls on the circle's inner top-left can take back from the inner box *)
+Definition loss (s : shape) : Q := match s with Circle => 2 | _ => 0 end.
+
 (* the inner box may overshoot the box by less than this much (cloud: math.Ceil on the inner top-left) *)
 Definition inside_slack (s : shape) : Q := match s with Cloud => 1 | _ => 0 end.
+
+(* ---- oval: modelled up to its four trigonometric values (oracles) ----
+   GetDimensionsToFit:  theta = float32(atan2(h, w));  c = cos theta, s = sin theta.
+   GetInnerBox (GetInsidePlacement with zero padding) of the box (W,H): rx = W/2, ry = H/2,
+   theta' = float32(atan2(ry, rx)), r = rx*ry / sqrt((rx sin theta')^2 + (ry cos theta')^2);
+   cr = cos theta' * r,  sr = sin theta' * r.
+   The harness recomputes c, s, cr, sr with the same Go expressions and hands them to Check.v, which
+   evaluates the hypotheses below on them (codes 3 and 4). *)
+Definition ovalAR : Q := 3.
+Definition fit_oval (c s w h px py : Q) : Q * Q :=
+  let pw := w + px * c in
+  let ph := h + py * s in
+  limit_ar (ceilQ (sqrt2f * pw)) (ceilQ (sqrt2f * ph)) ovalAR.
+Definition inner_oval (cr sr W H : Q) : box :=
+  let tx := ceilQ (W / 2 - cr) in
+  let ty := ceilQ (H / 2 - sr) in
+  (tx, ty, W - 2 * (tx - 0), H - 2 * (ty - 0)).
+
+Definition rho : Q := 1 # 100000.   (* relative accuracy demanded of the trigonometric oracle *)
+Definition H_unit_b (c s : Q) : bool :=
+  Qle_bool 0 c && Qle_bool c 1 && Qle_bool 0 s && Qle_bool s 1.
+(* exact trigonometry gives cr = rx / sqrt 2 and sr = ry / sqrt 2 *)
+Definition H_radius_b (cr sr W H : Q) : bool :=
+  Qle_bool (W / 2 * (1 - rho)) (sqrt2f * cr) && Qle_bool cr (W / 2)
+  && Qle_bool (H / 2 * (1 - rho)) (sqrt2f * sr) && Qle_bool sr (H / 2).
